@@ -156,6 +156,13 @@ P = {
         "single_timeout": 900,
         "min_budget": 30,
     },
+    "C16": {
+        "runs": {"quick": 2500, "thorough": 300000},
+        "budget_s": {"quick": 200, "thorough": 3300},
+        "rule": "one scenario = one agent session (real libdisco Noise_NK client and server over a simulated stream) multiplexing 1-4 virtual connections (hello, 0-20 data messages of 0-65000 bytes with self-describing payloads, eof; IPv4 and IPv6 remote addresses, ports 1-65535) plus pings, UDP relay messages and data for unknown connections, interleaved message by message by the choice tape; every message is framed as three transport writes, as one, or with its body split in two; a quarter of the runs drop the agent after n messages; services behind are recording stubs in echo mode; distinct = distinct trace digest; non-trivial = at least two virtual connections",
+        "components": comp(real=["listener/agent: serv loop, conn2 framing, messages codec, agentConnection, Connections; libdisco server and client (real handshake and encryption)"], stub=["stub echo service", "scripted agent built on the package's own message types"], simulated=["the TCP stream between agent and listener"]),
+        "assumptions": ["the codec's round trip is exercised by the traffic that crosses the tunnel in both directions, not enumerated separately"],
+    },
 }
 
 def get(prop):
